@@ -185,7 +185,9 @@ pub fn c01_check(w: &World, obs: &Observation) -> (Vec<Issue>, C01Stats) {
     let mut all_expected_aspas: BTreeSet<(u32, Vec<u32>)> = BTreeSet::new();
     let mut all_expected_rk: BTreeSet<(u32, String)> = BTreeSet::new();
 
-    for ca in w.ca_handles() {
+    for ca in w.ca_handles().into_iter()
+        .filter(|c| !w.oracle_skip.contains(c))
+    {
         if ca == "ta" { continue }
         let Ok(c) = w.krill.ca_manager().get_ca(&h(&ca)) else { continue };
         let roles = key_roles(w, &ca);
@@ -504,4 +506,68 @@ pub fn stored_child_certs(w: &World, issuer: &str) -> Vec<StoredChildCert> {
         });
     }
     res
+}
+
+//------------ certificates for dropped keys ----------------------------------
+
+/// Every published (and RP-valid) CA certificate must be for a key that some
+/// CA still has: a child drops a key when its class goes away or after a
+/// roll, and the revocation it sends (directly or through the
+/// `ResourceClassRemoved` task) makes the parent withdraw the certificate.
+/// To be used at caught-up points only.
+pub fn dropped_key_issues(w: &World, obs: &Observation) -> Vec<Issue> {
+    let mut owners: BTreeMap<String, String> = BTreeMap::new();
+    for ca in w.ca_handles() {
+        let r = key_roles(w, &ca);
+        for k in r.active.iter().chain(r.new.iter()).chain(r.old.iter())
+            .chain(r.pending.iter())
+        {
+            owners.insert(k.clone(), ca.clone());
+        }
+    }
+    let mut issues = vec![];
+    for p in &obs.view.cas {
+        for (uri, ski, _res) in &p.child_certs {
+            if !owners.contains_key(ski) {
+                issues.push((
+                    "published-cert-for-dropped-key".into(),
+                    format!("{uri}: subject key {ski} is no longer a \
+                             key of any CA, but the certificate is \
+                             still published and valid"),
+                ));
+            }
+        }
+    }
+    issues
+}
+
+/// Operations (on top of `hist::standard_forest`) that give a CA three
+/// resource classes under ONE parent and then take two of them away in a
+/// single entitlement change.
+pub fn three_classes_script() -> Vec<crate::hist::Op> {
+    use crate::hist::Op;
+    let roa = |ca: &str, add: &[&str]| Op::RoaDelta {
+        ca: ca.into(), add: add.iter().map(|s| s.to_string()).collect(),
+        remove: vec![],
+    };
+    vec![
+        Op::AddCa { ca: "p3".into(), parent: "ta".into(),
+            asn: "AS65021-AS65025".into(), v4: "192.168.0.0/16".into(),
+            v6: "".into() },
+        Op::Quiesce,
+        Op::AddParent { ca: "c2".into(), parent: "p3".into(),
+            asn: "AS65021".into(), v4: "192.168.1.0/24".into(), v6: "".into() },
+        Op::Quiesce,
+        Op::AddCa { ca: "k3".into(), parent: "c2".into(),
+            asn: "AS65004, AS65010, AS65021".into(),
+            v4: "10.128.0.0/16, 172.16.0.0/16, 192.168.1.0/24".into(),
+            v6: "".into() },
+        Op::Quiesce, Op::SyncAll, Op::Quiesce,
+        roa("k3", &["10.128.0.0/24 => 65004", "172.16.0.0/24 => 65010",
+                    "192.168.1.0/24 => 65021"]),
+        Op::Quiesce,
+        Op::ChildUpdate { parent: "c2".into(), child: "k3".into(),
+            asn: "AS65004".into(), v4: "10.128.0.0/16".into(), v6: "".into() },
+        Op::SyncAll, Op::Quiesce, Op::SyncAll, Op::Quiesce,
+    ]
 }
